@@ -477,7 +477,7 @@ class Walker:
             return [st]
         if isinstance(node, ast.Assign):
             v = self.sym(node.value, st)
-            if v[0] in ('call', 'mcall', 'callv', 'new'):
+            if v[0] in ('call', 'mcall', 'callv', 'new') and any(isinstance(n, ast.Call) for n in ast.walk(node.value)):
                 st.events.append(('value', v, node))
             for tgt in node.targets:
                 self.assign(tgt, v, st, node)
